@@ -3,7 +3,7 @@
 cd "$(dirname "$0")/.."
 run() {
   d=$1; n=$(basename $d)
-  for id in C01 C02 C03 C04 C05 C06 C07 C08 C10 C11 C12 C13 C17 C18 C19; do
+  for id in C01 C02 C03 C04 C05 C06 C07 C08 C09 C10 C11 C12 C13 C14 C15 C16 C17 C18 C19; do
     out=$(./bin/pgocheck -prop $id -noseeds -patch $d/patch.diff 2>&1); e=$?
     if [ $e != 0 ]; then echo "== $n $id"; echo "$out" | grep "^VIOLATED\|^UNDECIDED\|^ANCHOR-LOST\|mutate:" | cut -c1-200 | head -12; fi
   done
